@@ -79,6 +79,7 @@ type wShared struct {
 	keys  map[int]wKey                        // import ids
 	metas map[int]map[string]*AccountMetadata // id -> pwd -> importable metadata
 	dummy string
+	dkUs  int64 // conc_test.go: measured cost of one key derivation
 }
 
 func wPrepare(in *wInput) *wShared {
